@@ -403,6 +403,71 @@ def check_radiation(ctx, prog, rule="c20.rad"):
             ctx.violation(rule, rule + "|I_dif_tot_eq", "I_dif_tot_eq normalises to %s" % c2, eqf.loc())
     except AnalysisError as e:
         ctx.note("I_dif_tot_eq: %s" % e)
+    # the radiation and solar-geometry functions compute on the caller's angles and irradiances: no parameter is overwritten before use
+    # (`surf_tilt = wrap(surf_tilt)` turns the identities above into statements about a different surface)
+    nfun = 0
+    for fn_ in sorted(prog.fns.values(), key=lambda f: f.id):
+        if fn_.crate != "climate" or fn_.kind not in ("fn", "assocfn") or not fn_.path.startswith("climate::solar::") or fn_.raw.get("impl_derived"):
+            continue
+        nfun += 1
+        sc_ = Scope(prog, fn_)
+        for l in range(1, fn_.body.argc + 1):
+            ds = [d for d in fn_.body.defs().get(l, [])]
+            if ds:
+                d = ds[0]
+                val = show(strip(sc_.rvalue(d[3]["rv"])))[:80] if d[0] == "st" else show(strip(sc_._rw(sc_.eb.call_node(d[2], d[1]))))[:80]
+                ctx.violation(rule, "%s|params|%s|%s" % (rule, fn_.path, fn_.body.names.get(l, "_%d" % l)),
+                              "parameter `%s` of %s is overwritten with %s before it is used: the radiation identities are then evaluated for a different input "
+                              "(e.g. a tilt of exactly 180 degrees mapped onto a half-open interval becomes 0: a downward surface is treated as horizontal)"
+                              % (fn_.body.names.get(l, "_%d" % l), fn_.path.split("::")[-1], val), fn_.loc(d[3].get("ln") if d[0] == "st" else d[2].get("ln")))
+    ctx.floor(rule, "solar functions examined for overwritten parameters", nfun, 25)
+    ctx.ok(rule, rule + "|params", "no parameter of the %d functions of climate::solar is overwritten" % nfun, None)
+    # reference wiring of radiation_for_surface (ISO 52010 data flow): which quantity each model function receives
+    rf = prog.find("climate::solar::radiation_for_surface")
+    rsc = Scope(prog, rf)
+
+    def wd(n):
+        n = strip(n)
+        if n[0] == "arg":
+            return n[2]
+        if n[0] == "var":
+            return n[2]
+        if n[0] == "proj":
+            return wd(n[1]) + "".join(n[2])
+        if n[0] == "call":
+            return "%s(%s)" % (short_callee(n[1]), ",".join(wd(a) for a in n[2]))
+        if n[0] == "k":
+            return n[1]
+        return show(n)[:40]
+    DECL, HA = "declination_from_nday(nday)", "hourangle_from_tsol(hour)"
+    ALT = "altitude_sol_from_data(%s,%s,latitude)" % (DECL, HA)
+    ANG = "angle_sol_surf(%s,%s,latitude,surf_tilt,surf_azimuth)" % (DECL, HA)
+    GB = "G_sol_b(gsol.dir,%s)" % ALT
+    DP = "get_diffuse_params(nday,%s,gsol.dif,%s,%s)" % (GB, ALT, ANG)
+    WIRING = {
+        "angle_sol_surf": ANG, "altitude_sol_from_data": ALT, "G_sol_b": GB, "get_diffuse_params": DP,
+        "I_dir": "I_dir(%s,%s)" % (GB, ANG),
+        "I_circum_eq": "I_circum_eq(gsol.dif,%s.F1,%s.a,%s.b)" % (DP, DP, DP),
+        "I_dif_eq": "I_dif_eq(gsol.dif,%s.F1,%s.F2,%s.a,%s.b,surf_tilt)" % (DP, DP, DP, DP),
+        "I_dif_grnd": "I_dif_grnd(%s,gsol.dif,%s,surf_tilt,albedo)" % (GB, ALT),
+    }
+    seen_w = {}
+    for b, t in rf.body.calls():
+        nm = short_callee(callee_name(t) or "")
+        if nm in WIRING:
+            seen_w[nm] = (wd(rsc._rw(rsc.eb.call_node(t, b))), t.get("ln"))
+    ctx.require(set(seen_w) == set(WIRING), "radiation_for_surface: model functions %s are not called (data flow not recognised)" % sorted(set(WIRING) - set(seen_w)))
+    for nm, want in sorted(WIRING.items()):
+        got, ln_ = seen_w[nm]
+        key = "%s|wiring|%s" % (rule, nm)
+        if got == want:
+            ctx.ok(rule, key, "%s receives the caller's angles/irradiances unmodified" % nm, rf.loc(ln_))
+        else:
+            # name the first differing argument
+            i0 = next((i for i, (x, y) in enumerate(zip(got, want)) if x != y), min(len(got), len(want)))
+            lo = max(0, got.rfind(",", 0, i0) + 1, got.rfind("(", 0, i0) + 1)
+            ctx.violation(rule, key, "in radiation_for_surface an input of %s is `%s..` where the reference data flow has `%s..`: the input is transformed on the way, so the "
+                          "identities checked for the model functions no longer describe the surface the caller asked for" % (nm, got[lo:lo + 70], want[lo:lo + 40]), rf.loc(ln_))
     # brightness thresholds strictly increasing
     bc = prog.find("climate::solar::brightness_coefficients")
     chain, default = TB.threshold_chain(bc)
